@@ -356,6 +356,10 @@ def gen_chain(r, offgrid=False):
     12*dQ/512/dt of consecutive samples is a dyadic rational (exact in double arithmetic)."""
     n = r.choice([0, 1, 2, 2, 3, 3, 4, 5, 6, 8])
     t = Fraction(r.randint(0, 2 ** 24), 1024) if not offgrid else Fraction(round(r.uniform(0, 1e7), 3)).limit_denominator(1000)
+    if not offgrid and r.random() < 0.25:
+        # epoch-scale host time as recorded in the field (~2^40..2^41 us): still exact on the 2^-10 us grid, and
+        # neighbouring samples a few us apart differ by ~1e-12 relative
+        t += 2 ** 40 + r.randint(0, 2 ** 40 - 2 ** 26)
     start = r.choice(["any", "any", "near_wrap", "small"])
     if start == "near_wrap":
         u = r.randint(1, 4) * W32 - r.randint(1, 50000)
